@@ -154,6 +154,16 @@ def e2e(spec: Dict[str, Any], mode_name: str, variant: str, fail: Optional[Tuple
     except Exception as e:  # noqa: BLE001
         status, exc = "raised", str(e)[-200:]
     lo = leftovers(base_threads, base_procs, keys_before)      # measured while the prepared session is still referenced
+    # whatever was left is reported above; make sure it cannot block later runs or the exit of this check
+    for p in multiprocessing.active_children():
+        if p.pid not in base_procs:
+            try:
+                p.terminate()
+                p.join(2)
+                if p.is_alive():
+                    p.kill()
+            except Exception:  # noqa: BLE001
+                pass
     del sess
     return {"status": status, "exc": exc, **lo}
 
